@@ -38,6 +38,43 @@ def firstConflict (g : List TaskEff) : Option (Nat × Nat) :=
   (g.flatMap fun t => g.map fun u => (t, u)).findSome? fun (t, u) =>
     if t.id == u.id || ordered g t.id u.id || pairOk t u then none else some (t.id, u.id)
 
+/-! ### Reduction shape: how often a worker's result enters the final task
+
+Between the E-step tasks (`workers`) and the final task (the M-step) a training graph holds only
+tasks that add up the values of their dependencies (a flat list handed to `m_step`, a pairwise or
+wider tree of `__add__` tasks).  `pathCountF` counts the dependency paths from a task down to one
+worker; `Lemmas/SumDag.lean` proves that the value reaching the final task is the sum over the workers
+of (number of paths) × (the worker's result), whatever the shape of the reduction. -/
+
+/-- direct dependencies of the task with id `t` (none if there is no such task) -/
+def depsOf (g : List TaskEff) (t : Nat) : List Nat :=
+  match g.find? (fun x => x.id == t) with
+  | some x => x.deps
+  | none => []
+
+/-- number of dependency paths (of length < fuel) from task `t` down to worker `w`; a worker is a leaf -/
+def pathCountF (deps : Nat → List Nat) (isW : Nat → Bool) : Nat → Nat → Nat → Nat
+  | 0, _, _ => 0
+  | fuel+1, w, t => if isW t then (if w == t then 1 else 0) else ((deps t).map (pathCountF deps isW fuel w)).sum
+
+def pathCount (g : List TaskEff) (workers : List Nat) (w t : Nat) : Nat :=
+  pathCountF (depsOf g) (fun x => workers.contains x) (g.length + 1) w t
+
+/-- position of task `t` in the list (the list length if absent) -/
+def posOf (g : List TaskEff) (t : Nat) : Nat := (g.findIdx? (fun x => x.id == t)).getD g.length
+
+/-- the task list is in dependency order: every dependency of a task that is itself a task stands before it -/
+def topoOrdered (g : List TaskEff) : Bool :=
+  g.all fun t => t.deps.all fun d => posOf g d < posOf g t.id || !(g.any fun x => x.id == d)
+
+/-- every worker's result reaches the final task along exactly one path -/
+def exactlyOnce (g : List TaskEff) (final : Nat) (workers : List Nat) : Bool :=
+  workers.all fun w => pathCount g workers w final == 1
+
+/-- the first worker whose result does not enter exactly once, with its path count -/
+def firstMiscount (g : List TaskEff) (final : Nat) (workers : List Nat) : Option (Nat × Nat) :=
+  workers.findSome? fun w => let c := pathCount g workers w final; if c == 1 then none else some (w, c)
+
 /-- shape of one training iteration: `k` E-step tasks (tasks with no dependency among the listed
 ones that the final task depends on directly), and one final task depending on all of them -/
 def fanIn (g : List TaskEff) (final : Nat) (workers : List Nat) : Bool :=
